@@ -43,7 +43,7 @@ TRUSTED = ["Lean Float arithmetic = Rust f64 arithmetic (measured)", "powi = squ
 ASSUMPTIONS = ["is_square uses an f32 square root: exact for the (deg+1)^2 <= 49-element matrices used here"]
 
 EPS = 2.0 ** -52
-C_TOL = 5000.0       # calibrated: max observed ratio over seeds 1..5 quick and thorough is 36.7 (>= 100x headroom)
+C_TOL = 10000.0      # calibrated: max observed ratio over seeds 1..5 quick and thorough is 57.9 (>= 100x headroom)
 SKIP_AT = 1e-2       # C_TOL * eps * cond above this: the bound says nothing, correspondence only
 
 
@@ -90,6 +90,8 @@ def gen_fit(rng, tier, cover, big):
     exact = kind in ("int", "grid") and rng.chance(0.5)
     if exact:
         c0 = [float(rng.randint(-9, 9)) for _ in range(d + 1)]
+        if rng.chance(0.2):
+            c0[-1] = 0.0      # vanishing leading coefficient: the fit must still return deg+1 coefficients
         y = [float(sum(Fraction(c) * Fraction(v) ** k for k, c in enumerate(c0))) for v in x]
         noise = "exact"
     else:
@@ -231,6 +233,9 @@ def corpus():
     L.append("fit corpus:cubic 3 %s %s" % (vec(xi), vec([1.0 - 2.0 * v + 3.0 * v ** 3 for v in xi])))
     L.append("vander corpus:v 4 %s" % vec([2.0, -1.5, 0.0]))
     L.append("fit corpus:mismatch 1 %s %s" % (vec([1.0, 2.0, 3.0]), vec([1.0, 2.0])))
+    # cubic regressor on the symmetric grid, even response 1 + x^2: c1 = c3 = 0 exactly, still 4 coefficients
+    xg = [-2.0, -1.0, 0.0, 1.0, 2.0]
+    L.append("fit corpus:even-cubic 3 %s %s" % (vec(xg), vec([1.0 + v * v for v in xg])))
     # replicated design with sum x^3 = 0 exactly but sum x = 6: X^T X has a zero entry whose Cholesky fill-in is 72/11
     xz = [-2.0] + [0.0] * 2 + [1.0] * 8
     L.append("fit corpus:zerosum:d2:exact 2 %s %s" % (vec(xz), vec([1.0 + 2.0 * v + 3.0 * v * v for v in xz])))
@@ -485,3 +490,10 @@ def oracle(lines, impl):
     if os.environ.get("CV_CALIBRATE"):
         print("[c14 calibrate] worst observed ratio (error / (eps*cond*scale)) = %.4g  (C_TOL = %g)" % (worst, C_TOL))
     return fails
+
+# --- deep theorems (2: inverse hypothesis discharged)
+PROOF_MODULES = PROOF_MODULES + ['Compute.Props.C01SolveApps']
+REQUIRED_THEOREMS = REQUIRED_THEOREMS + ['Cv.C01Solve.poly_fit_normal_equations_unconditional', 'Cv.C01Solve.poly_fit_minimal_unconditional', 'Cv.C01Solve.poly_fit_total']
+_np = list(NOT_PROVED)
+_np = [('exactness of invert_matrix is no longer a hypothesis: Props/C01SolveApps proves the normal equations / minimality / totality of `fit` unconditionally for a non-singular normal matrix (exact arithmetic, via the proved LU/Cholesky solver correctness)' if 'invert_matrix' in str(x) else x) for x in _np]
+NOT_PROVED = [x for x in _np if x is not None]
